@@ -96,7 +96,12 @@ func AddWitnessHTLCToOutputs(
 	signingKey *btcec.PrivateKey,
 ) (cashu.BlindedMessages, error) {
 	for i, output := range outputs {
-		hash := sha256.Sum256([]byte(output.B_))
+		// message to sign is the B_ of the output (bytes, not the hex string)
+		msgToSign, err := hex.DecodeString(output.B_)
+		if err != nil {
+			return nil, err
+		}
+		hash := sha256.Sum256(msgToSign)
 		signature, err := schnorr.Sign(signingKey, hash[:])
 		if err != nil {
 			return nil, err
